@@ -4,6 +4,37 @@ import vlib
 from checks import system
 
 
+def drop_misplaced(ctx, trace):
+    """strace counts every call of the chosen name on the loop's thread, so `write:when=k` can land on the poller's
+    own eventfd (a wake-up write in Trigger, not a call made on behalf of a connection; EPIPE / ECONNRESET cannot
+    occur there).  The harness logs where each fault landed (FaultHit, from strace's own output); engine lives whose
+    fault hit the eventfd are outside the property's quantification and are not validated."""
+    import json
+    lives, cur = [], []
+    with open(trace) as f:
+        for line in f:
+            if '"ev":"Reset"' in line and cur:
+                lives.append(cur)
+                cur = []
+            cur.append(line)
+    if cur:
+        lives.append(cur)
+    kept, dropped = [], 0
+    for lv in lives:
+        bad = any('"ev":"FaultHit"' in l and json.loads(l).get("eventfd") for l in lv)
+        if bad:
+            dropped += 1
+        else:
+            kept += lv
+    if dropped:
+        ctx.notes.append("%d engine lives discarded: the injected fault landed on the poller's eventfd, not on a connection's system call" % dropped)
+        out = trace + ".kept"
+        with open(out, "w") as f:
+            f.writelines(kept)
+        return out
+    return trace
+
+
 def run(ctx):
     t = system.record(ctx, "faults", test="TestVerifFaults", timeout=2400)
     rep = ctx.harness_runs[-1]
@@ -11,10 +42,12 @@ def run(ctx):
     if not armed:
         raise vlib.MachineryError("no fault could be injected (strace could not attach to the loop thread)")
     ctx.notes.append("%d faults injected" % armed)
+    t = drop_misplaced(ctx, t)
     system.validate(ctx, t, ["TrLife", "TrIn", "TrOut", "TrFd"], "injected faults")
     t = system.record(ctx, "sys")
     system.validate(ctx, t, ["TrLife"], "real resets among bystanders")
     ctx.assumptions += system.SYS_ASSUME + ["strace -e inject fails exactly the k-th call of one system call on the loop's OS thread (WithLockOSThread)",
+                                            "a fault that strace placed on a write to the poller's eventfd (identified from strace's own log) is outside the property: that engine life is discarded",
                                             "close(2), accept4 with fatal errnos and epoll_wait with errnos other than EINTR are not injected (fatal by design / injection would fake a leak)",
                                             "an injected EAGAIN on read is only used in level-triggered mode (the kernel would not report it with data pending)"]
     return vlib.finish(ctx, "fault_enumeration",
